@@ -1,7 +1,10 @@
+import SpecKitV.Props.AnalysisGen
 import SpecKitV.Lemmas.AnalyzerGlue
 import SpecKitV.Props.C01
 import SpecKitV.Props.C05
 
+#print axioms gen_single_bin_seg_eq_model
+#print axioms gen_single_bin_omega_eq
 #print axioms Model.coreStep_spec
 #print axioms Model.coreLoop_eq_map
 #print axioms Model.cachesOk_empty
